@@ -295,6 +295,7 @@ func init() {
 			})
 			r.Distinct = int64(len(seen))
 			c03sorter(c, r)
+			c03extras(c, r)
 		},
 		Replay: func(c *ev.Ctx, desc json.RawMessage) *ev.Violation {
 			if v, ok := c03sortReplay(desc); ok {
@@ -302,6 +303,9 @@ func init() {
 			}
 			var cs c03case
 			json.Unmarshal(desc, &cs)
+			if cs.TI < 0 {
+				return c03extraJudge(cs.VI)
+			}
 			types := gen.Types(cs.Depth)
 			if cs.TI >= len(types) {
 				return nil
